@@ -28,8 +28,7 @@ from . import sdl_ko
 
 THEOREMS = [
     "TDV.Node.built_lawful",
-    "TDV.Loader.get_transparent_partial",
-    "TDV.Loader.get_transparent_statement_false",
+    "TDV.Loader.get_transparent",
     "TDV.Loader.load_idempotent",
     "TDV.Weighted.node_resume_exact",
     "TDV.Incr.lossless_state",
